@@ -128,6 +128,30 @@ pub(crate) mod __verif_kani {
         }
     }
 
+    //@ kind=P props=C13 fn=u64::count_ones : cross-check of the trusted Verus lemma axiom_h8_popcount (unit c13_linecol): for every word whose set bits all lie at the eight lane-top positions (bits 7, 15, .., 63), count_ones == the number of set lane tops; all 2^64 words, loop-free after unrolling 8 lanes
+    #[kani::proof]
+    #[kani::unwind(10)]
+    pub fn c13_h8_popcount_is_lane_count() {
+        let m: u64 = kani::any();
+        kani::assume(m & !0x8080_8080_8080_8080u64 == 0);
+        let mut n = 0u32;
+        let mut k = 0u32;
+        while k < 8 { if (m >> (8 * k + 7)) & 1 == 1 { n += 1; } k += 1; }
+        assert!(m.count_ones() == n);
+    }
+
+    //@ kind=P props=C13 fn=u64::from_le_bytes : contract of the Verus stub le_word (unit c13_linecol): for any 8 bytes, lane k of u64::from_le_bytes(bytes[..8].try_into().unwrap()) is byte k
+    #[kani::proof]
+    #[kani::unwind(10)]
+    pub fn c13_le_word_lanes() {
+        let b: [u8; 11] = kani::any();
+        let pos: usize = kani::any();
+        kani::assume(pos <= 3);
+        let w = u64::from_le_bytes(b[pos..pos + 8].try_into().unwrap());
+        let mut k = 0usize;
+        while k < 8 { assert!(((w >> (8 * k)) & 0xff) as u8 == b[pos + k]); k += 1; }
+    }
+
     //@ kind=B props=C13 bound=every_19-byte_buffer,every_offset fn=line_and_column : SWAR newline counter == naive count for every 19-byte buffer and every offset <= 19 (two full 8-byte words plus a 3-byte scalar tail)
     #[kani::proof]
     #[kani::unwind(22)]
